@@ -48,6 +48,8 @@ def run(tier, seed):
     core.run_jobs(jobs)
     for j in jobs:
         res.absorb(j)
+    # E4: coverage-guided campaign with the same oracle inside the target (value profile finds a = N, 2N-1, tie phases)
+    core.run_fuzz(res, "fz_c13", 12 if tier == "quick" else 600, 2 if tier == "quick" else 8, seed, "C13")
     res.exhaustive = True
     # the boundary enumeration re-visits tie-adjacent phases of the swept moduli: do not count them twice
     res.exhaustive_nontrivial -= sum(9 * M + 7 for M in sweepM) * (2 if tier == 'thorough' else 1)
